@@ -510,6 +510,15 @@ def execute(ctx, route, fail_at=0, spelling=None, workdir=None, bad=None, preexi
                     res["data2"] = sink2.value()
                 except Exception as e:
                     res["data2"] = "raised %s: %s" % (type(e).__name__, str(e)[:160])
+                if binary:
+                    # the Excel tabulations also offer the workbook itself (.workbook): after writing it holds what was written
+                    try:
+                        import openpyxl  # noqa: F401
+                        buf = io.BytesIO()
+                        w.__self__.workbook.save(buf)
+                        res["data3"] = buf.getvalue()
+                    except Exception as e:
+                        res["data3"] = "raised %s: %s" % (type(e).__name__, str(e)[:160])
         elif route == "ini":
             text = render_ini(ctx, spelling, bad)
             res["ini"] = text
@@ -1033,6 +1042,15 @@ def _replay_one(job):
                         if not same:
                             r["bad"] = [("second-write", "write() called a second time on the same tabulation object %s" % (
                                 d2[:120] if isinstance(d2, str) and d2.startswith(("raised", "unreadable")) else "gives a different table than the first time"))]
+                    if "data3" in res and not r["bad"]:
+                        d3 = res["data3"]
+                        try:
+                            same = not isinstance(d3, str) and {k: v["cols"] for k, v in formats.parse_xlsx(res["data"]).items()} == {k: v["cols"] for k, v in formats.parse_xlsx(d3).items()}
+                        except Exception as e:
+                            same, d3 = False, "unreadable workbook: %s" % e
+                        if not same:
+                            r["bad"] = [("workbook-property", "the .workbook of the tabulation object after write() %s" % (
+                                d3[:120] if isinstance(d3, str) else "does not hold the sheets / cells that were written"))]
                 if r["bad"]:
                     r["ini"] = res.get("ini")
             except Exception as e:      # harness failure, not a verdict
